@@ -1,18 +1,266 @@
-// SimSched: seeded scheduler over real threads (exactly one runnable at any instant).
+// SimSched: seeded scheduler over real threads. Simulated threads are real pthreads; exactly one is runnable at any
+// instant, every other one is parked on its own futex word. Scheduling points are the wrapped pthread_mutex_lock /
+// unlock, every SimHeap / SimVM call, the H1 / H2 hooks and operation boundaries.
+//
+// The park / wake primitive is a raw futex syscall on a word that is accessed with RELAXED atomics only, from
+// functions that ThreadSanitizer does not instrument: TSan therefore sees no happens-before edge created by the
+// scheduler, only those created by asmjit's own synchronisation.
 #include "sim/sim.h"
 #include "sim/internal.h"
+
+#include <linux/futex.h>
 #include <pthread.h>
+#include <stdio.h>
+#include <string.h>
+#include <sys/syscall.h>
+#include <unistd.h>
+#include <map>
+#include <vector>
 
 extern "C" {
 int __real_pthread_mutex_lock(pthread_mutex_t*);
 int __real_pthread_mutex_unlock(pthread_mutex_t*);
 }
 
+#define NOSAN __attribute__((no_sanitize("thread"))) __attribute__((noinline))
+
 namespace sim {
-void sched_point(int kind) { (void)kind; }
+namespace sched {
+
+namespace {
+
+NOSAN long raw_futex(volatile int* addr, int op, int val) {
+  long ret;
+  register long r10 __asm__("r10") = 0;
+  register long r8 __asm__("r8") = 0;
+  register long r9 __asm__("r9") = 0;
+  __asm__ volatile("syscall" : "=a"(ret) : "0"(long(SYS_futex)), "D"(addr), "S"(long(op)), "d"(long(val)), "r"(r10), "r"(r8), "r"(r9) : "rcx", "r11", "memory");
+  return ret;
 }
 
-extern "C" int __wrap_pthread_mutex_lock(pthread_mutex_t* m) { return __real_pthread_mutex_lock(m); }
-extern "C" int __wrap_pthread_mutex_unlock(pthread_mutex_t* m) { return __real_pthread_mutex_unlock(m); }
+struct Thread {
+  volatile int go = 0;          // 1 = this thread may run
+  int state = 0;                // 0 runnable, 1 blocked on a mutex, 2 finished
+  pthread_mutex_t* waiting_for = nullptr;
+  int held = 0;                 // number of mutexes this thread holds
+  std::vector<uint64_t> cs_seqs;   // critical sections entered since the harness last collected them
+  uint64_t current_cs = 0;
+  int priority = 0;
+  pthread_t handle;
+};
 
-extern "C" void asmjit_verif_shared(const void* obj, const char* site) { (void)obj; (void)site; }
+struct State {
+  bool active = false;
+  int n = 0;
+  std::vector<Thread> threads;
+  int running = -1;
+  Rng rng;
+  int strategy = 0;            // 0 random walk, 1 PCT-like priorities
+  uint32_t switch_den = 4;     // random walk: switch with probability 1/switch_den
+  std::vector<uint64_t> change_points;
+  uint64_t steps = 0;
+  uint64_t step_cap = 400000;
+  uint64_t switches = 0;
+  uint64_t cs_counter = 0;
+  uint64_t locks_observed = 0;
+  uint64_t lock_order_hash = 0xcbf29ce484222325ull;
+  std::map<pthread_mutex_t*, int> owner;
+  volatile int driver_go = 0;
+  Body body = nullptr;
+  void* body_arg = nullptr;
+  H2Observer h2 = nullptr;
+  void* h2_ctx = nullptr;
+};
+
+State g_s;
+thread_local int t_tid = -1;
+
+NOSAN void park(volatile int* word) {
+  for (;;) {
+    int v = __atomic_load_n(word, __ATOMIC_RELAXED);
+    if (v == 1) break;
+    raw_futex(word, FUTEX_WAIT, 0);
+  }
+  __atomic_store_n(word, 0, __ATOMIC_RELAXED);
+}
+
+NOSAN void unpark(volatile int* word) {
+  __atomic_store_n(word, 1, __ATOMIC_RELAXED);
+  raw_futex(word, FUTEX_WAKE, 1);
+}
+
+// Picks the thread that runs next among the runnable ones (the caller may or may not be runnable).
+int choose(int me) {
+  State& s = g_s;
+  std::vector<int> runnable;
+  for (int i = 0; i < s.n; i++) if (s.threads[size_t(i)].state == 0) runnable.push_back(i);
+  if (runnable.empty()) return -1;
+  if (s.strategy == 1) {
+    // PCT-like: highest priority runnable thread runs; at a change point the running thread's priority drops.
+    for (uint64_t cp : s.change_points) if (cp == s.steps && me >= 0) s.threads[size_t(me)].priority = -int(s.steps) - 1;
+    int best = runnable[0];
+    for (int t : runnable) if (s.threads[size_t(t)].priority > s.threads[size_t(best)].priority) best = t;
+    return best;
+  }
+  bool me_runnable = me >= 0 && s.threads[size_t(me)].state == 0;
+  if (me_runnable && runnable.size() > 1 && s.rng.below(s.switch_den) != 0) return me;
+  if (me_runnable && runnable.size() == 1) return me;
+  return runnable[s.rng.below(runnable.size())];
+}
+
+void switch_from(int me, const char* why) {
+  State& s = g_s;
+  s.steps++;
+  if (s.steps > s.step_cap) fail("sched:no-progress", "more than %llu scheduling points in one run (%s)", (unsigned long long)s.step_cap, why);
+  int next = choose(me);
+  if (next < 0) {
+    std::string d;
+    for (int i = 0; i < s.n; i++) { char b[64]; snprintf(b, sizeof b, " t%d:%s", i, s.threads[size_t(i)].state == 1 ? "blocked" : s.threads[size_t(i)].state == 2 ? "done" : "runnable"); d += b; }
+    fail("sched:deadlock", "every simulated thread is blocked:%s", d.c_str());
+  }
+  if (next == me) return;
+  s.switches++;
+  s.running = next;
+  unpark(&s.threads[size_t(next)].go);
+  if (me >= 0 && s.threads[size_t(me)].state != 2) park(&s.threads[size_t(me)].go);
+}
+
+void* thread_main(void* arg) {
+  int tid = int(intptr_t(arg));
+  t_tid = tid;
+  tsan_ignore_begin();
+  park(&g_s.threads[size_t(tid)].go);
+  g_s.body(tid, g_s.body_arg);
+  // finished: hand over to somebody else (or to the driver)
+  State& s = g_s;
+  s.threads[size_t(tid)].state = 2;
+  bool any = false;
+  for (int i = 0; i < s.n; i++) if (s.threads[size_t(i)].state != 2) any = true;
+  if (any) switch_from(tid, "thread exit");
+  else unpark(&s.driver_go);
+  tsan_ignore_end();
+  return nullptr;
+}
+
+} // namespace
+
+bool active() { return g_s.active; }
+int current_tid() { return g_s.active ? t_tid : -1; }
+uint64_t steps() { return g_s.steps; }
+uint64_t switches() { return g_s.switches; }
+uint64_t locks_observed() { return g_s.locks_observed; }
+uint64_t lock_order_hash() { return g_s.lock_order_hash; }
+uint64_t current_cs() { int t = current_tid(); return t >= 0 ? g_s.threads[size_t(t)].current_cs : 0; }
+int held_locks() { int t = current_tid(); return t >= 0 ? g_s.threads[size_t(t)].held : 0; }
+void set_h2_observer(H2Observer fn, void* ctx) { g_s.h2 = fn; g_s.h2_ctx = ctx; }
+
+std::vector<uint64_t> take_cs_seqs() {
+  int t = current_tid();
+  std::vector<uint64_t> out;
+  if (t >= 0) out.swap(g_s.threads[size_t(t)].cs_seqs);
+  return out;
+}
+
+void yield() { if (g_s.active && t_tid >= 0) switch_from(t_tid, "yield"); }
+
+void run(int n, Body body, void* arg, uint64_t seed, int strategy) {
+  State& s = g_s;
+  s.threads.clear();
+  s.threads.resize(size_t(n));
+  s.n = n;
+  s.rng = Rng(mix64(seed ^ 0x5c4ed));
+  s.strategy = strategy & 1;
+  static const uint32_t dens[] = {2, 3, 4, 8, 16, 64};
+  s.switch_den = dens[s.rng.below(6)];
+  s.change_points.clear();
+  uint32_t d = uint32_t(1 + s.rng.below(4));
+  for (uint32_t i = 0; i < d; i++) s.change_points.push_back(1 + s.rng.below(2000));
+  for (int i = 0; i < n; i++) s.threads[size_t(i)].priority = int(s.rng.below(1000)) + 1;
+  s.steps = 0; s.switches = 0; s.cs_counter = 0; s.locks_observed = 0; s.lock_order_hash = 0xcbf29ce484222325ull;
+  s.owner.clear();
+  s.driver_go = 0;
+  s.body = body; s.body_arg = arg;
+  s.running = -1;
+  s.active = true;
+  for (int i = 0; i < n; i++) {
+    if (pthread_create(&s.threads[size_t(i)].handle, nullptr, thread_main, reinterpret_cast<void*>(intptr_t(i))) != 0) fail("harness:pthread-create", "pthread_create failed");
+  }
+  // start the first thread and wait until the last one finishes
+  int first = choose(-1);
+  s.running = first;
+  unpark(&s.threads[size_t(first)].go);
+  park(&s.driver_go);
+  for (int i = 0; i < n; i++) pthread_join(s.threads[size_t(i)].handle, nullptr);
+  s.active = false;
+  s.h2 = nullptr;
+  count("sched.steps", s.steps);
+  count("sched.switches", s.switches);
+}
+
+} // namespace sched
+
+void sched_point(int kind) {
+  (void)kind;
+  if (!sched::g_s.active || sched::t_tid < 0) return;
+  sched::switch_from(sched::t_tid, "scheduling point");
+}
+
+} // namespace sim
+
+using namespace sim;
+
+extern "C" int __wrap_pthread_mutex_lock(pthread_mutex_t* m) {
+  sched::State& s = sched::g_s;
+  if (!s.active || sched::t_tid < 0) return __real_pthread_mutex_lock(m);
+  int me = sched::t_tid;
+  {
+    HarnessScope hs;
+    sched::switch_from(me, "before lock");
+    for (;;) {
+      auto it = s.owner.find(m);
+      if (it == s.owner.end()) break;
+      if (it->second == me) fail("sched:relock", "simulated thread %d locks a mutex it already holds", me);
+      // held by another simulated thread: block until its unlock makes us runnable again
+      s.threads[size_t(me)].state = 1;
+      s.threads[size_t(me)].waiting_for = m;
+      count("sched.lock_contended");
+      sched::switch_from(me, "blocked on mutex");
+    }
+    s.owner[m] = me;
+    sched::Thread& t = s.threads[size_t(me)];
+    t.held++;
+    t.current_cs = ++s.cs_counter;
+    t.cs_seqs.push_back(t.current_cs);
+    s.locks_observed++;
+    s.lock_order_hash = (s.lock_order_hash ^ uint64_t(me + 1)) * 0x100000001b3ull;
+  }
+  // The real mutex is free by construction; locking it gives ThreadSanitizer asmjit's own happens-before edge.
+  return __real_pthread_mutex_lock(m);
+}
+
+extern "C" int __wrap_pthread_mutex_unlock(pthread_mutex_t* m) {
+  sched::State& s = sched::g_s;
+  if (!s.active || sched::t_tid < 0) return __real_pthread_mutex_unlock(m);
+  int me = sched::t_tid;
+  int rc = __real_pthread_mutex_unlock(m);
+  {
+    HarnessScope hs;
+    auto it = s.owner.find(m);
+    if (it == s.owner.end() || it->second != me) fail("sched:bad-unlock", "simulated thread %d unlocks a mutex it does not hold", me);
+    s.owner.erase(it);
+    s.threads[size_t(me)].held--;
+    for (int i = 0; i < s.n; i++) if (s.threads[size_t(i)].state == 1 && s.threads[size_t(i)].waiting_for == m) { s.threads[size_t(i)].state = 0; s.threads[size_t(i)].waiting_for = nullptr; }
+    sched::switch_from(me, "after unlock");
+  }
+  return rc;
+}
+
+// H2: shared bookkeeping is being accessed. A scheduling point, and a probe of whether the caller holds a lock.
+extern "C" void asmjit_verif_shared(const void* obj, const char* site) {
+  sched::State& s = sched::g_s;
+  if (!s.active || sched::t_tid < 0) return;
+  HarnessScope hs;
+  count("sched.h2_probes");
+  if (s.h2) s.h2(s.h2_ctx, obj, site, s.threads[size_t(sched::t_tid)].held);
+  sched::switch_from(sched::t_tid, "shared access");
+}
